@@ -46,15 +46,15 @@ Print Assumptions C01_whatwg_cross_check.
    of the machine - the reconsumed character followed by the unread queue with CR LF / CR normalised as the interpreter does
    it inside get_char with its ignore_lf flag - equal to the specification's preprocessed remaining input.  One interpreter
    step = one to three specification steps; end() = the specification's end-of-file clauses; emitting a start tag switches
-   both tokenizers as the sink answers (PLAINTEXT / RCDATA / RAWTEXT / script data ...).  Discharged for 32 states by symbolic
+   both tokenizers as the sink answers (PLAINTEXT / RCDATA / RAWTEXT / script data ...).  Discharged for 33 states by symbolic
    execution of both machines on a machine with all fields variables and a character that is a variable, case analysis
    following the tests of the arm.  Observation ([flat_i] / [flat_s]): parse errors dropped, character tokens compared
    character by character (U+0000 as its own token, as html5ever delivers it), every other token exactly.
-   _partial - COVERED (32): Data, PLAINTEXT, RCDATA, RAWTEXT, script data and its 17 less-than-sign / end-tag-open /
-   end-tag-name / escape states, tag open, end tag open, tag name, self-closing start tag.
+   _partial - COVERED (33): Data, PLAINTEXT, RCDATA, RAWTEXT, script data and its 17 less-than-sign / end-tag-open /
+   end-tag-name / escape states, tag open, end tag open, tag name, self-closing start tag, bogus comment.
    NOT covered (a run that reaches one of them is outside the theorem - the visiting hypothesis fails): before attribute name,
    attribute name, after attribute name, before attribute value, attribute value (double-quoted / single-quoted / unquoted),
-   after attribute value (quoted); bogus comment, markup declaration open, the 10 comment states; the 16 DOCTYPE states; the
+   after attribute value (quoted); markup declaration open, the 10 comment states; the 16 DOCTYPE states; the
    3 CDATA section states; the character reference states.  Sink: no Script and no EncodingIndicator answer, one feed call. *)
 From HV Require Import TokIR.WhatwgRefine HtmlSer.SerLex CharRef.CrInterpInst Inst.InstWhatwgRefine.
 
@@ -73,7 +73,7 @@ Theorem C01_refines_whatwg_text_and_attributeless_tags_partial :
 Proof. exact html_refines_whatwg_partial. Qed.
 Print Assumptions C01_refines_whatwg_text_and_attributeless_tags_partial.
 
-Theorem C01_covered_states : forallb covered covered_states = true /\ length covered_states = 32%nat.
+Theorem C01_covered_states : forallb covered covered_states = true /\ length covered_states = 33%nat.
 Proof. exact covered_states_ok. Qed.
 Print Assumptions C01_covered_states.
 
